@@ -117,7 +117,7 @@ PROPS['C10'] = dict(
     claim='Proof (partial by production): C10_cond_roundtrip / C10_where_roundtrip - for EVERY parenthesis-free combination of '
           'comparison predicates with AND/OR (any number, any operands whose literals Token.Val reads back) the parser model returns '
           'the tree in which AND binds tighter than OR and consumes exactly those tokens; C10_and_tighter; C10_group_by_list - a comma '
-          'separated GROUP BY list of n columns yields n columns (no silent cut). The remaining productions (select list, joins, '
+          'separated GROUP BY list of n columns yields n columns (no silent cut). C10_no_silent_tail / C10_tail_refused - for EVERY token list, Parser.Parse returns a statement only if the statement production consumed the whole input up to closing semicolons and the end, and a statement followed by anything else is a syntax error: no clause behind a token the grammar does not know is ever dropped (the defect repaired in c4dbcb2; the judge checks the same on the implementation: sql:statement-tail-dropped). The remaining productions (select list, joins, '
           'VALUES rows, SET lists, ORDER BY, LIMIT/OFFSET, DDL) and the text->token layer are covered by correspondence and judge only '
           '(C10_statement_roundtrip_partial): statement trees generated over the whole grammar, rendered with random keyword case, '
           'whitespace, comments, line breaks and optional keywords, two renderings each, exhaustive boolean shapes up to 4 predicates; '
